@@ -103,7 +103,8 @@ def check_weights(ctx, rc, tags, W_arg, r1d, kind):
     ref = numpy.cumsum(r1d.astype(numpy.longdouble))
     ref = (ref / ref[-1]).astype(float)
     k = numpy.arange(W.size)
-    bad = numpy.abs(W - ref) > 4.0 * (k + 1) * numpy.finfo(float).eps
+    # sequential float accumulation: relative error <= (k+1) eps at entry k, plus <= n eps from the normalising last entry, which enters every weight
+    bad = numpy.abs(W - ref) > (4.0 * (k + 1) + 2.0 * W.size) * numpy.finfo(float).eps
     if bad.any():
         j = int(numpy.nonzero(bad)[0][0])
         ctx.violate("cumulative weight differs from the exact normalised cumulative rate", rc, observed={"k": j, "W": W[j]}, expected=ref[j],
@@ -187,12 +188,29 @@ def _feasible_binary(r1d, n_active):
     return n_active == 0 or (n_active <= (p > 0).sum() and p[n_active - 1] > 5e-4)
 
 
-def ex_case(ctx, case, test="CL", num_sim=3, source="seed", seed=1):
+def ex_case(ctx, case, test="CL", num_sim=3, source="seed", seed=1, layout="C", scale=None):
     pe, be, br = _mods()
-    fore, cat, reg, w = gridcases.build(case)
     rates = numpy.array(case["rates"], dtype=float)
+    if scale is not None:
+        rates = rates * scale        # the rates in force after forecast.scale(scale)
+
+    def build():
+        fore, cat, reg, w = gridcases.build(case)
+        # memory layout of the forecast's rate table (bin numbering is the logical row-major one whatever the storage order)
+        if layout == "F":
+            fore._data = numpy.asfortranarray(fore._data)
+        elif layout == "T":
+            fore._data = numpy.ascontiguousarray(fore._data.T).T
+        elif layout == "strided":
+            big = numpy.zeros((rates.shape[0], rates.shape[1] * 2))
+            big[:, ::2] = numpy.array(case["rates"], dtype=float)
+            fore._data = big[:, ::2]
+        if scale is not None:
+            fore.scale(scale)
+        return fore, cat, reg, w
+    fore, cat, reg, w = build()
     r1d = rates_for(test, rates).ravel()
-    rc = {"exec": "case", "args": {"case": case, "test": test, "num_sim": num_sim, "source": source, "seed": seed}}
+    rc = {"exec": "case", "args": {"case": case, "test": test, "num_sim": num_sim, "source": source, "seed": seed, "layout": layout, "scale": scale}}
     ctx.current_case = rc
     n_obs = int(w.sum())
     wobs = {"S": w.sum(axis=1), "BS": w.sum(axis=1), "M": w.sum(axis=0)}.get(test, w)
@@ -201,7 +219,7 @@ def ex_case(ctx, case, test="CL", num_sim=3, source="seed", seed=1):
     fn, mod = {"L": (pe.likelihood_test, pe), "CL": (pe.conditional_likelihood_test, pe), "S": (pe.spatial_test, pe), "M": (pe.magnitude_test, pe),
                "BS": (be.binary_spatial_test, be), "BCL": (be.binary_conditional_likelihood_test, be), "BR": (br.brier_score_test, br)}[test]
     kind = "poisson" if poisson else ("brier" if test == "BR" else "binary")
-    tags = {"test": test, "source": source, "has_zero_rate": bool((r1d == 0).any()), "seed_zero": seed == 0, "kind": kind}
+    tags = {"test": test, "source": source, "has_zero_rate": bool((r1d == 0).any()), "seed_zero": seed == 0, "kind": kind, "layout": layout, "scaled": scale is not None}
     if not poisson and not _feasible_binary(r1d, n_active):
         ctx.add("skipped_infeasible_rejection_cases")
         return
@@ -229,6 +247,13 @@ def ex_case(ctx, case, test="CL", num_sim=3, source="seed", seed=1):
                 lo = numpy.where(cells > 0, cs[numpy.maximum(cells - 1, 0)], 0.0)
                 f = rgen.choice([0.25, 0.5, 0.75], n_draw)
                 rn = (lo + f * (cs[cells] - lo))[None, :]           # strictly inside the cell's cumulative interval
+                if seed % 2:
+                    # draws exactly ON the lower cumulative boundary F_(k-1) of each chosen cell (0.0 for the first positive cell):
+                    # [F_(k-1), F_k) is closed on the left, so they still belong to cell k
+                    csl = numpy.cumsum(r1d) / numpy.cumsum(r1d)[-1]
+                    first = int(pos[0])
+                    rn = numpy.where(cells > first, csl[numpy.maximum(cells - 1, 0)], 0.0)[None, :]
+                    tags["inject_mode"] = "lower-boundary"
                 rn = numpy.clip(rn, 0.0, ONE_BELOW)
                 for Wx in (cs, numpy.cumsum(r1d) / numpy.cumsum(r1d)[-1]):
                     if numpy.unique(simlog.place(Wx, rn[0])).size != n_draw:     # ulp-wide cells: cannot inject distinct cells safely
@@ -286,7 +311,7 @@ def ex_case(ctx, case, test="CL", num_sim=3, source="seed", seed=1):
     # determinism
     if source in ("seed", "inject") and hostile is None:
         with simlog.scrambled_global_rng((seed, test, "x")):
-            ok2, res2, tb2 = ctx.call(fn, *gridcases.build(case)[:2], **kw)
+            ok2, res2, tb2 = ctx.call(fn, *build()[:2], **kw)
         ctx.mon("determinism:seeded-rerun", 1)
         if ok2:
             td2 = numpy.asarray(res2.test_distribution, dtype=float)
@@ -405,7 +430,8 @@ def run(ctx):
         seeds = [0, int(r.integers(1, 10 ** 6))]
         for t in PTESTS + BTESTS:
             src = ["seed", "inject", "hostile"][(j + hash(t)) % 3] if j % 4 else "seed"
-            ex_case(ctx, case, t, num_sim=int(r.choice([1, 2, 7])), source=src, seed=seeds[(j + len(t)) % 2])
+            ex_case(ctx, case, t, num_sim=int(r.choice([1, 2, 7])), source=src, seed=seeds[(j + len(t)) % 2],
+                    layout=["C", "F", "C", "T", "strided"][j % 5], scale=None if j % 6 != 5 else float(r.choice([0.25, 3.0])))
         if j % 40 == 0:
             ctx.sample({"cells": case["nx"] * case["ny"], "mags": case["nmag"], "n_events": len(case["ev_cell"]),
                         "zero_rate_bins": int((numpy.array(case["rates"]) == 0).sum()), "tests": PTESTS + BTESTS, "sources": ["seed", "inject", "hostile"]})
